@@ -449,6 +449,11 @@ func propC17(w *World, r *Report) {
 							if _, isAlloc := st.Val.(*ssa.MakeSlice); isAlloc {
 								continue // the buffer itself is allocated once; its size says nothing about the input
 							}
+							if sl, isSl := st.Val.(*ssa.Slice); isSl {
+								if _, isArr := sl.X.(*ssa.Alloc); isArr && sl.Low == nil && sl.High == nil {
+									continue // make([]T, N) with constant N
+								}
+							}
 							res[fieldName(fa)] = st.Pos()
 						}
 					}
